@@ -34,6 +34,8 @@ def run(ctx):
 
     ctx.each(shapes.resolved_name_rule, ctx, repo, "R16l", "programs", "ProgramSet")
     ctx.each(r16m, ctx, repo)
+    ctx.each(r16n, ctx, repo)
+    ctx.each(cache_refresh_rule, ctx, repo, "R16o")
     ctx.each(informational, ctx, repo)
 
 
@@ -703,3 +705,62 @@ def r16m(ctx, repo):
         blk = dels[0]._parent.body if hasattr(dels[0], "_parent") else []
         ok = ok and any(isinstance(x, ast.Expr) and ast.unparse(x.value) == "%s.update_outcomes()" % cov for x in blk[blk.index(dels[0]) + 1 :])
     ctx.check(ok, "R16m", f, dels[0] if dels else f.node, "remove_program deletes the program from every covout that has it and refreshes the cache", "remove_program does not delete `covouts[(par, pop)].progs[code_name]` exactly where it exists and refresh that covout's cached outcomes afterwards", stmt_text="remove_program-covouts")
+
+
+def r16n(ctx, repo):
+    from ..core import boolx as B
+    from ..core.cfg import branch_guards
+
+    ctx.rule("R16n", "a reconciled program set survives its own spreadsheet: _convert_to_single_year moves the program set's time axis to the reconciliation year, and the program book writer only writes time-specific values that lie on that axis - so every per-program series the writer exports (the fields assigned to `tdve.ts[...]` in ProgramSet._write_spending) must be re-based onto the reconciliation year there, whenever it has data and under no further condition: vals = <field>.interpolate(year), t = year, assumption = None")
+    wr = repo.func("programs", "ProgramSet._write_spending")
+    fields = []
+    for s_ in own_nodes(wr.node):
+        if isinstance(s_, ast.Assign) and isinstance(s_.targets[0], ast.Subscript) and ast.unparse(s_.targets[0].value).endswith(".ts") and isinstance(s_.value, ast.Attribute) and isinstance(s_.value.value, ast.Name):
+            fields.append(s_.value.attr)
+    ctx.require(len(fields) >= 4, "R16n: the per-program series written by _write_spending were not recognised (%s)" % fields)
+    cv = repo.func("reconciliation", "_convert_to_single_year")
+    year = cv.params[1]
+    loops = [l for l in own_nodes(cv.node) if isinstance(l, ast.For) and ".programs" in ast.unparse(l.iter) and isinstance(l.target, ast.Name)]
+    ctx.require(len(loops) == 1, "R16n: the loop over programs was not found in _convert_to_single_year")
+    lp, pv = loops[0], loops[0].target.id
+    tv = [s_ for s_ in own_nodes(cv.node) if isinstance(s_, ast.Assign) and ast.unparse(s_.targets[0]).endswith(".tvec")]
+    ctx.require(tv, "R16n: _convert_to_single_year no longer sets the program set's tvec (unrecognised shape)")
+    for f in fields:
+        base = "%s.%s" % (pv, f)
+        st = {a: [s_ for s_ in ast.walk(lp) if isinstance(s_, ast.Assign) and ast.unparse(s_.targets[0]) == "%s.%s" % (base, a)] for a in ("vals", "t", "assumption")}
+        ok = all(len(v) == 1 for v in st.values())
+        why = "is not re-based (vals, t, assumption) onto the reconciliation year"
+        if ok:
+            v = st["vals"][0].value
+            ok = isinstance(v, ast.Call) and ast.unparse(v.func) == base + ".interpolate" and v.args and year in ast.unparse(v.args[0]) and year in ast.unparse(st["t"][0].value) and isinstance(st["assumption"][0].value, ast.Constant) and st["assumption"][0].value.value is None
+            why = "is not set to its value at the reconciliation year (vals = %s.interpolate(%s), t = %s, assumption = None)" % (base, year, year)
+            if ok:
+                for a, v_ in st.items():
+                    g = B.cond(branch_guards(v_[0], stop=lp))
+                    if not B.equivalent(g, B.parse_cond("%s.has_data" % base)):
+                        ok = False
+                        why = "is re-based only when `%s` (expected: whenever `%s.has_data`)" % (" and ".join(("" if p else "not ") + ast.unparse(t) for t, p in branch_guards(v_[0], stop=lp)), base)
+                        break
+        ctx.check(ok, "R16n", cv, st["vals"][0] if st["vals"] else lp, "`%s` re-based onto the reconciliation year whenever it has data" % f, "the program series `%s`, which the program book writer exports, %s: its time-specific values stay at years that are no longer on the program set's time axis, the writer skips them, and the reconciled program set rebuilt from its own spreadsheet has lost them" % (f, why), stmt_text="rebase:%s" % f)
+
+
+VALUE_CACHE = {"_cached_progs", "_deltas", "_combination_outcomes"}  # cache fields computed from the outcome values (baseline, progs, _interactions)
+
+
+def cache_refresh_rule(ctx, repo, rule):
+    from ..core.cfg import guards_of as _g
+
+    ctx.rule(rule, "update_outcomes() refreshes the whole cache every time: each cache field of a Covout (a field update_outcomes writes: the ordered programs, the deltas, the combination table and the combination outcomes) is assigned at the top level of update_outcomes, not under a condition or behind an early exit - a field that is only rebuilt when 'something structural changed' keeps outcomes computed from the previous values after a sample, a reconciliation step or an edit")
+    fi = repo.func("programs", "Covout.update_outcomes")
+    me = fi.params[0]
+    src, cache = covout_fields(repo)
+    ctx.require(len(cache) >= 4, "%s: fewer cache fields (%s) than confirmed (4)" % (rule, sorted(cache)))
+    for f in sorted(cache):
+        st = [s_ for s_ in own_nodes(fi.node) if isinstance(s_, ast.Assign) and any(ast.unparse(t) == "%s.%s" % (me, f) for t in s_.targets)]
+        if f not in VALUE_CACHE:
+            # a table that depends only on how many programs there are (the 0/1 combination matrix) may be kept while that number is unchanged
+            ctx.check(bool(st), rule, fi, st[0] if st else fi.node, "`%s` (structure only) is built in update_outcomes" % f, "update_outcomes no longer builds `%s`" % f, stmt_text="cache-built:%s" % f)
+            continue
+        ok = bool(st) and any(not _g(s_, stop=fi.node) and any(s_ is b for b in fi.node.body) for s_ in st)
+        g = _g(st[0], stop=fi.node) if st else []
+        ctx.check(ok, rule, fi, st[0] if st else fi.node, "`%s` rebuilt unconditionally" % f, "update_outcomes rebuilds the cache field `%s` only when %s: after a change of the outcomes alone (sampling, reconciliation, an edited value) get_outcome() keeps using the stale table" % (f, " and ".join(("" if p else "not ") + "`%s`" % ast.unparse(t)[:70] for t, p in g) or "a nested block runs"), stmt_text="cache-unconditional:%s" % f)
